@@ -18,6 +18,7 @@ import (
 type domCond struct {
 	cond  ssa.Value
 	truth bool
+	bind  map[ssa.Value]ssa.Value // parameters of an inlined predicate -> the caller's arguments
 }
 
 // dominatingConds: branch outcomes that hold whenever control reaches b.
@@ -29,7 +30,7 @@ func dominatingConds(b *ssa.BasicBlock) []domCond {
 		}
 		pr := x.Preds[0]
 		if iff, ok := pr.Instrs[len(pr.Instrs)-1].(*ssa.If); ok && pr.Succs[0] != pr.Succs[1] {
-			out = append(out, domCond{iff.Cond, pr.Succs[0] == x})
+			out = append(out, domCond{cond: iff.Cond, truth: pr.Succs[0] == x})
 		}
 	}
 	return out
